@@ -278,13 +278,16 @@ def render(reader: io.Reader, writer: io.Writer, allowed: Optional[List[str]] = 
     for d in defs:
         if allowed and d.name not in allowed:
             continue
+        if reader.escaped == reader.pos and d.name != 'paragraph':
+            # An escaped line is paragraph text, not some other block that it resembles without the backslash.
+            continue
         match = d.openMatch.search(reader.cursor)
         if not match:
             continue
         # Escape non-paragraphs.
         if match[0][0] == '\\' and d.name != 'paragraph':
             # Drop backslash escape and continue.
-            reader.cursor = reader.cursor[1:]
+            reader.unescape()
             continue
         if d.verify and not d.verify(match):
             continue
